@@ -83,6 +83,10 @@ CHECKS = {
              text='Exploration: generated schemas around INVERSE (own/inherited over 1-2 levels, several inverses per target, aggregate and single inverted attributes, referrer subtypes) x populations x '
                   'load orders; every inverse attribute of every loaded instance must hold exactly the referrers, each once.',
              ref='DESIGN.md section 2 C11'),
+ 'C06': dict(tech='compiler sanitizers (gcc ASan+UBSan, fatal, one process per input, ASLR off) + hook step counters and CPU limit over shipped schemas, generated schemas, token/byte mutants, an identifier-replacement grid and fixed pathological shapes, through all four EXPRESS tools',
+             text='Exploration: all 51 shipped .exp files, generated valid schemas, ~70 mutants per base schema, 1441 identifier-replacement mutants and 321 pathological shapes/option values are run through '
+                  'check-express, exppp, exp2cxx and exp2python built with ASan+UBSan; any report, signal, out-of-range status, missing diagnostic or step/CPU budget overrun is a violation.',
+             ref='DESIGN.md section 2 C06', note='red-zone sanitizers miss intra-object overflows; loops without a hook site are bounded only by the CPU limit'),
  'C01': dict(tech='reference-model monitor over recorded executions (independent Part 21 parser vs. files written by the real library) under ASan+UBSan',
              text='Exploration: seeded generated schemas x conforming populations x text variants are read and written by the real p21read/STEPfile '
                   'built with ASan+UBSan from the current tree; an independent Part 21 parser compares the written population value by value with the '
